@@ -1,9 +1,17 @@
-"""C06 -- E1 exploration, monitor selected by tag (see DESIGN.md section 4)."""
+"""C06 -- allocator protocol: E1 over the ledger allocators, monitor 'alloc'.  Two instantiations additionally run with
+one injected allocation/copy fault per history, because a failed (re)allocation is where a capacity word and a block
+most easily get out of step."""
 from checks import e1
 
 
 def run(ctx):
-    matrix = e1.quick_matrix() if ctx.tier == "quick" else e1.thorough_matrix()
-    matrix = [i for i in matrix if e1.relevant("C06", i)]
+    q = ctx.tier == "quick"
+    matrix = [i for i in (e1.quick_matrix() if q else e1.thorough_matrix()) if e1.relevant("C06", i)]
+    I = e1.inst
+    matrix += [
+        I("vector", 0, "TR", alloc="ledgerrealloc", L=3, opts=["--few-ranges", "--fault", "1"]),
+        I("small", 2, "NTR", alloc="ledgerstd", L=3, opts=["--few-ranges", "--fault", "1"]),
+        I("vector", 0, "TC4", alloc="ledgerbasic", L=3, opts=["--few-ranges", "--fault", "1"]),
+    ]
     cov = e1.explore(ctx, matrix, ["C06"])
     return ctx.finish("model_checking", cov, e1.ASSUME)
